@@ -31,6 +31,9 @@ pub enum Entry {
 #[derive(Clone, Debug, Serialize, Deserialize)]
 pub enum Case {
   Value(Fields),
+  /// a large value: `piece` repeated until field number `field` has about `target` bytes
+  /// (document sizes around buffer-size boundaries: 4 KiB ... 1 MiB)
+  Large { piece: String, target: u32, field: u8, small: Fields },
   /// a document written by the harness: which keys are present, in which order, how strings are escaped
   Doc {
     mappings: String,
@@ -79,6 +82,20 @@ fn value_strategy() -> BoxedStrategy<Case> {
     proptest::option::of(wild_string()),
   )
     .prop_map(|(mappings, sources, contents, names, file, root, debug_id)| Case::Value(Fields { mappings, sources, contents, names, file, root, debug_id }))
+    .boxed()
+}
+
+fn large_strategy() -> BoxedStrategy<Case> {
+  (wild_string(), 12u32..=20u32, -40i32..=40i32, 0u8..4u8, value_strategy())
+    .prop_map(|(piece, pow, delta, field, small)| {
+      let piece = if piece.is_empty() { "a;b\n".to_string() } else { piece };
+      let target = ((1i64 << pow) + delta as i64).max(16) as u32;
+      let small = match small {
+        Case::Value(f) => f,
+        _ => unreachable!(),
+      };
+      Case::Large { piece, target, field, small }
+    })
     .boxed()
 }
 
@@ -184,7 +201,20 @@ fn parse3(doc: &str) -> Result<Result<Fields, String>, String> {
   match (&a, &b, &c) {
     (Ok(x), Ok(y), Ok(z)) if x == y && y == z => Ok(a),
     (Err(_), Err(_), Err(_)) => Ok(a),
-    _ => Err(format!("from_json / from_slice / from_reader disagree on {doc:?}: {a:?} / {b:?} / {c:?}")),
+    _ => {
+      let short = |r: &Result<Fields, String>| match r {
+        Ok(_) => "Ok".to_string(),
+        Err(e) => format!("Err({})", e.chars().take(120).collect::<String>()),
+      };
+      Err(format!(
+        "from_json / from_slice / from_reader disagree on a document of {} bytes starting {:?}: {} / {} / {}",
+        doc.len(),
+        doc.chars().take(200).collect::<String>(),
+        short(&a),
+        short(&b),
+        short(&c)
+      ))
+    }
   }
 }
 
@@ -198,7 +228,7 @@ impl Prop for C15 {
   fn rule(&self) -> String {
     "leg 1: SourceMap values whose strings are built from quotes, backslashes, control characters, U+2028/2029, DEL, BOM, \
      astral characters, '</script>' and the empty string, every optional field present or absent, sourcesContent absent / \
-     all-empty / mixed; leg 2: documents written by the harness's own JSON writer with keys in random order, null entries, \
+     all-empty / mixed; leg 1b: large values (one field of 4 KiB - 1 MiB, sizes within +-40 bytes of a power of two); leg 2: documents written by the harness's own JSON writer with keys in random order, null entries, \
      missing arrays, four escaping styles (incl. \\uXXXX surrogate pairs), unknown extra keys, any version. Oracle: \
      serde_json (independent of simd-json) as reference parser. Non-trivial: a string that needs an escape, or (leg 2) a \
      null entry / missing array; distinct by hash of the case JSON".into()
@@ -207,58 +237,29 @@ impl Prop for C15 {
     vec![
       Leg { name: "values", source: Cases::Generated(Box::new(value_strategy), 300_000, 4_000_000) },
       Leg { name: "documents", source: Cases::Generated(Box::new(doc_strategy), 300_000, 4_000_000) },
+      Leg { name: "large values (4 KiB - 1 MiB, sizes around powers of two)", source: Cases::Generated(Box::new(large_strategy), 600, 12_000) },
     ]
   }
   fn check(&self, case: &Case) -> CheckResult {
     let r = guard(|| -> Result<CaseInfo, String> {
       match case {
-        Case::Value(f) => {
-          let mut m = SourceMap::new(f.mappings.clone(), f.sources.clone(), f.contents.clone(), f.names.clone());
-          m.set_file(f.file.clone());
-          m.set_source_root(f.root.clone());
-          m.set_debug_id(f.debug_id.clone());
-          let j = m.clone().to_json().map_err(|e| format!("to_json failed: {e}"))?;
-          let mut w = vec![];
-          m.clone().to_writer(&mut w).map_err(|e| format!("to_writer failed: {e}"))?;
-          if w != j.as_bytes() {
-            return Err(format!("to_writer wrote {:?}, to_json gave {j:?}", String::from_utf8_lossy(&w)));
+        Case::Value(f) => check_value(f),
+        Case::Large { piece, target, field, small } => {
+          let mut big = String::with_capacity(*target as usize + piece.len());
+          while big.len() < *target as usize {
+            big.push_str(piece);
           }
-          let v: serde_json::Value = serde_json::from_str(&j).map_err(|e| format!("an independent JSON parser rejects to_json() output {j:?}: {e}"))?;
-          let obj = v.as_object().ok_or("to_json() is not an object")?;
-          if obj.get("version") != Some(&serde_json::json!(3)) {
-            return Err(format!("version is {:?}", obj.get("version")));
+          let mut f = small.clone();
+          match field {
+            0 => f.mappings = big.chars().filter(|c| c.is_ascii_alphanumeric() || *c == ';' || *c == ',').collect::<String>() + "AAAA",
+            1 => f.contents = vec![big],
+            2 => f.sources = vec![big],
+            _ => {
+              f.names = (0..(*target / 8).max(1)).map(|i| format!("n{i}")).collect();
+            }
           }
-          let arr = |k: &str| -> Option<Vec<String>> {
-            obj.get(k).and_then(|a| a.as_array()).map(|a| a.iter().map(|x| x.as_str().unwrap_or("<non-string>").to_string()).collect())
-          };
-          let st = |k: &str| -> Option<String> { obj.get(k).and_then(|x| x.as_str()).map(|s| s.to_string()) };
-          if st("mappings").as_ref() != Some(&f.mappings) || arr("sources").as_ref() != Some(&f.sources) || arr("names").as_ref() != Some(&f.names) {
-            return Err(format!("to_json() {j:?} does not carry the same mappings/sources/names as the value {f:?}"));
-          }
-          if st("file") != f.file || st("sourceRoot") != f.root || st("debugId") != f.debug_id {
-            return Err(format!("to_json() {j:?} does not carry the same file/sourceRoot/debugId as the value {f:?}"));
-          }
-          let all_empty = f.contents.iter().all(|s| s.is_empty());
-          match arr("sourcesContent") {
-            None if all_empty => {}
-            Some(c) if !all_empty && c == f.contents => {}
-            other => return Err(format!("sourcesContent in {j:?} is {other:?}; the value has {:?} (must be omitted exactly when all entries are empty)", f.contents)),
-          }
-          let known = ["version", "file", "sources", "sourcesContent", "names", "mappings", "sourceRoot", "debugId"];
-          if let Some(k) = obj.keys().find(|k| !known.contains(&k.as_str())) {
-            return Err(format!("unexpected key {k:?} in {j:?}"));
-          }
-          // back
-          let back = parse3(&j)?.map_err(|e| format!("to_json() output {j:?} is rejected by the crate's own parsers: {e}"))?;
-          let mut want = f.clone();
-          if all_empty {
-            want.contents = vec![];
-          }
-          if back != want {
-            return Err(format!("round trip through {j:?} gives {back:?}, expected {want:?}"));
-          }
-          let esc = needs_escape(&f.mappings) || f.sources.iter().chain(&f.contents).chain(&f.names).chain(f.file.iter()).chain(f.root.iter()).chain(f.debug_id.iter()).any(|s| needs_escape(s));
-          Ok(CaseInfo::nt(esc).class(all_empty && !f.contents.is_empty(), "sourcesContent present but all empty").class(f.debug_id.is_some(), "debugId present"))
+          let r = check_value(&f)?;
+          Ok(CaseInfo::nt(true).class(true, "large value").class(r.nontrivial, "large value with escapes"))
         }
         Case::Doc { mappings, sources, contents, names, file, root, debug_id, version, extra_key, order, escape_style, spaces } => {
           // assemble key/value pairs
@@ -373,6 +374,56 @@ impl Prop for C15 {
     }
   }
 }
+
+
+fn check_value(f: &Fields) -> CheckResult {
+      let mut m = SourceMap::new(f.mappings.clone(), f.sources.clone(), f.contents.clone(), f.names.clone());
+      m.set_file(f.file.clone());
+      m.set_source_root(f.root.clone());
+      m.set_debug_id(f.debug_id.clone());
+      let j = m.clone().to_json().map_err(|e| format!("to_json failed: {e}"))?;
+      let mut w = vec![];
+      m.clone().to_writer(&mut w).map_err(|e| format!("to_writer failed: {e}"))?;
+      if w != j.as_bytes() {
+        return Err(format!("to_writer wrote {:?}, to_json gave {j:?}", String::from_utf8_lossy(&w)));
+      }
+      let v: serde_json::Value = serde_json::from_str(&j).map_err(|e| format!("an independent JSON parser rejects to_json() output {j:?}: {e}"))?;
+      let obj = v.as_object().ok_or("to_json() is not an object")?;
+      if obj.get("version") != Some(&serde_json::json!(3)) {
+        return Err(format!("version is {:?}", obj.get("version")));
+      }
+      let arr = |k: &str| -> Option<Vec<String>> {
+        obj.get(k).and_then(|a| a.as_array()).map(|a| a.iter().map(|x| x.as_str().unwrap_or("<non-string>").to_string()).collect())
+      };
+      let st = |k: &str| -> Option<String> { obj.get(k).and_then(|x| x.as_str()).map(|s| s.to_string()) };
+      if st("mappings").as_ref() != Some(&f.mappings) || arr("sources").as_ref() != Some(&f.sources) || arr("names").as_ref() != Some(&f.names) {
+        return Err(format!("to_json() {j:?} does not carry the same mappings/sources/names as the value {f:?}"));
+      }
+      if st("file") != f.file || st("sourceRoot") != f.root || st("debugId") != f.debug_id {
+        return Err(format!("to_json() {j:?} does not carry the same file/sourceRoot/debugId as the value {f:?}"));
+      }
+      let all_empty = f.contents.iter().all(|s| s.is_empty());
+      match arr("sourcesContent") {
+        None if all_empty => {}
+        Some(c) if !all_empty && c == f.contents => {}
+        other => return Err(format!("sourcesContent in {j:?} is {other:?}; the value has {:?} (must be omitted exactly when all entries are empty)", f.contents)),
+      }
+      let known = ["version", "file", "sources", "sourcesContent", "names", "mappings", "sourceRoot", "debugId"];
+      if let Some(k) = obj.keys().find(|k| !known.contains(&k.as_str())) {
+        return Err(format!("unexpected key {k:?} in {j:?}"));
+      }
+      // back
+      let back = parse3(&j)?.map_err(|e| format!("to_json() output {j:?} is rejected by the crate's own parsers: {e}"))?;
+      let mut want = f.clone();
+      if all_empty {
+        want.contents = vec![];
+      }
+      if back != want {
+        return Err(format!("round trip through {j:?} gives {back:?}, expected {want:?}"));
+      }
+      let esc = needs_escape(&f.mappings) || f.sources.iter().chain(&f.contents).chain(&f.names).chain(f.file.iter()).chain(f.root.iter()).chain(f.debug_id.iter()).any(|s| needs_escape(s));
+      Ok(CaseInfo::nt(esc).class(all_empty && !f.contents.is_empty(), "sourcesContent present but all empty").class(f.debug_id.is_some(), "debugId present"))
+    }
 
 /// used by the `json` fuzz target: does an independent parser accept the document?
 pub fn independent_parse_ok(j: &str) -> Result<(), ()> {
